@@ -72,3 +72,24 @@ pub fn str_split_at_kernel(string: &Utf8String, index: &i64) -> Option<(Utf8Stri
 pub fn bytes_to_str_kernel(bytes: &ZValue) -> Option<ZValue> {
     /*@let lang/dynamics/src/impls.rs :: fn bytes_to_str_branch :: let value @*/
 }
+
+// ---- numeric dispatch functions of the interpreter (rule R9: `args: Vec<ZValue>` -> `args: &[ZValue]`) ----
+pub trait AsSliceIdentity<T> { fn as_slice(&self) -> &[T]; }
+impl<T> AsSliceIdentity<T> for [T] { fn as_slice(&self) -> &[T] { self } }
+
+/*@fn lang/dynamics/src/impls.rs :: fn ret
+  plain
+@*/
+/*@end*/
+/*@macro lang/dynamics/src/impls.rs :: macro integer_arithmetic_result @*/
+/*@fn lang/dynamics/src/impls.rs :: fn integer_arithmetic
+  plain
+  vec_as_slice args
+@*/
+/*@end*/
+/*@macro lang/dynamics/src/impls.rs :: macro float_arithmetic_result @*/
+/*@fn lang/dynamics/src/impls.rs :: fn float_arithmetic
+  plain
+  vec_as_slice args
+@*/
+/*@end*/
